@@ -3,6 +3,7 @@
 
 #include <bluetoe/ll_meta_types.hpp>
 #include <bluetoe/codes.hpp>
+#include <bluetoe/bits.hpp>
 #include <bluetoe/l2cap_channels.hpp>
 
 #include <cstdlib>
@@ -153,13 +154,23 @@ namespace l2cap {
 
         if ( code == connection_parameter_update_response_code && pending_status_ == transmitted )
         {
-            pending_status_ = idle;
-            identifier_ = static_cast< std::uint8_t >( identifier_ + 1 );
-
-            if ( identifier_ == invalid_identifier )
-                identifier_ = static_cast< std::uint8_t >( identifier_ + 1 );
+            // a response is never answered; a response that does not match the outstanding request
+            // (identifier, size) is silently discarded and the request stays outstanding
+            static constexpr std::size_t   response_pdu_size    = 6;
+            static constexpr std::uint16_t response_data_length = 2;
 
             out_size = 0;
+
+            if ( in_size == response_pdu_size
+              && input[ 1 ] == identifier_
+              && bluetoe::details::read_16bit( &input[ 2 ] ) == response_data_length )
+            {
+                pending_status_ = idle;
+                identifier_ = static_cast< std::uint8_t >( identifier_ + 1 );
+
+                if ( identifier_ == invalid_identifier )
+                    identifier_ = static_cast< std::uint8_t >( identifier_ + 1 );
+            }
         }
         else
         {
